@@ -194,7 +194,8 @@ SqCustom(sq, out, c) ==
     [] c.c = "seqleader" ->
          IF ~sq.act \/ c.mode = "HiddenSuppressed" THEN [sq |-> SqActivate(sq, c.mode, c.timeout), out |-> out]
          ELSE [sq |-> sq, out |-> out]
-    [] c.c = "seqnoerase" -> [sq |-> IF sq.act THEN [sq EXCEPT !.ne = @ + c.n] ELSE sq, out |-> out]
+    \* src: sequences.rs add_noerase: saturating_add (fix b0ed4c2)
+    [] c.c = "seqnoerase" -> [sq |-> IF sq.act THEN [sq EXCEPT !.ne = Min(@ + c.n, 65535)] ELSE sq, out |-> out]
     [] OTHER -> [sq |-> sq, out |-> out]
 
 \* src: mod.rs:1008-1017 tick_sequence_state; returns [sq, out, panic]
